@@ -6,6 +6,11 @@
 //!        [SV <vtree>]      (optional second random vtree for the SDD half of the correspondence)
 //!   vtree ::= L <var> | N <vtree> <vtree>.   cnf = 1: the program has the shape literals, one
 //!   or_lst per clause, one final and_lst, and the harness additionally compiles the CNF.
+//!   The leaves of VT / SV are the labels the program uses: all of 0..nvars-1, or (a quarter of
+//!   the generated cases) a subset with gaps containing nvars-1, or the 1-based labels 1..nvars-1.
+//!   The BDD half and the weights always range over all nvars labels.
+//! second case kind: SOAK S | D | X ...  (one long-lived hash-identified builder, oracle only; see
+//!   the section "soak cases" below; result line = the fixed token soak=oracle-only).
 //!   The weights are the real ones (create_semantic_hash_map, ChaCha8-seeded), printed into the
 //!   case at generation time; `run` re-reads them from the implementation and compares.
 //!
@@ -37,15 +42,20 @@
 //!   * cached hash = recomputed hash = defining sum, for BDD and SDD pointers sharing structure,
 //!     interleaved with further builder operations (one prime per builder: "fixed field and map");
 //!   * exploration half (U64_LARGEST): SemanticSddBuilder pool truth tables vs spec, eq() vs
-//!     truth-table equality on all pairs, compile_cnf; SemanticDecisionNNFBuilder compile + condition.
+//!     truth-table equality on all pairs, compile_cnf (also over the vtree derived from the CNF's own
+//!     dtree); SemanticDecisionNNFBuilder compile + condition;
+//!   * hashing is an observer: a RobddBuilder re-derives pointer-equal results (whole program, every
+//!     literal) after cached_semantic_hash has filled the per-node memos;
+//!   * soak cases: every result of 10^5 operations on one hash-identified builder against the
+//!     closed-form defining sum of its defining structure.
 use rsdd::builder::decision_nnf::{DecisionNNFBuilder, SemanticDecisionNNFBuilder, StandardDecisionNNFBuilder};
 use rsdd::builder::sdd::{CompressionSddBuilder, SddBuilder, SemanticSddBuilder};
 use rsdd::builder::{BottomUpBuilder, TopDownBuilder};
 use rsdd::constants::primes;
-use rsdd::repr::{create_semantic_hash_map, BddPtr, Cnf, DDNNFPtr, Literal, SddPtr, VTree, VarLabel, VarOrder};
+use rsdd::repr::{create_semantic_hash_map, BddNode, BddPtr, Cnf, DDNNFPtr, DTree, Literal, SddPtr, VTree, VarLabel, VarOrder};
 use rsdd_verif_harness::bddprog::*;
 use rsdd_verif_harness::*;
-use std::collections::HashMap;
+use std::collections::{HashMap, HashSet};
 
 pub const PROP: Prop = Prop { gen, run, panic_ok: never };
 
@@ -201,6 +211,15 @@ fn vt_rsdd(t: &VT) -> VTree {
         VT::N(l, r) => VTree::new_node(Box::new(vt_rsdd(l)), Box::new(vt_rsdd(r))),
     }
 }
+fn vt_leaves(t: &VT, out: &mut Vec<u64>) {
+    match t {
+        VT::L(v) => out.push(*v),
+        VT::N(l, r) => {
+            vt_leaves(l, out);
+            vt_leaves(r, out);
+        }
+    }
+}
 fn vt_random(rng: &mut Rng, labels: &[u64]) -> VT {
     if labels.len() == 1 {
         return VT::L(labels[0]);
@@ -224,9 +243,31 @@ fn semantic_safe(prog: &Prog) -> bool {
 }
 
 pub fn gen(rng: &mut Rng, idx: usize, n: usize, thorough: bool) -> String {
+    if let Some(c) = gen_soak(rng, idx, n, thorough) {
+        return c;
+    }
     let frac = (idx * 100) / n.max(1);
     let maxv = if thorough { 7 } else { 6 };
     let nv = (1 + (frac * (maxv - 1)) / 60 + if rng.chance(1, 4) { 1 } else { 0 }).clamp(1, maxv);
+    // label set of the vtrees (and of the program): in a quarter of the cases NOT 0..nv-1 but a
+    // set with gaps (always containing nv-1) or the 1-based labels 1..nv-1.  The BDD half still
+    // runs over all nv variables (the function ignores the absent ones), the vtrees VT / SV have
+    // leaves for the present labels only, so `largest label + 1` differs from `number of leaves`.
+    let present: Vec<usize> = if nv >= 2 && rng.chance(1, 4) {
+        if rng.chance(1, 3) {
+            (1..nv).collect()
+        } else {
+            let mut p: Vec<usize> = (0..nv - 1).filter(|_| rng.coin()).collect();
+            if p.len() == nv - 1 {
+                p.remove(rng.below((nv - 1) as u64) as usize);
+            }
+            p.push(nv - 1);
+            p
+        }
+    } else {
+        (0..nv).collect()
+    };
+    let np = present.len();
     let perm0 = if rng.chance(1, 5) { (0..nv).collect::<Vec<_>>() } else { rng.perm(nv) };
     let mut s = format!("{nv}");
     for p in &perm0 {
@@ -237,19 +278,20 @@ pub fn gen(rng: &mut Rng, idx: usize, n: usize, thorough: bool) -> String {
     let mut pool = 0usize;
     let target;
     if cnf {
-        // literals of every variable in both polarities first: pool index of (v, pol) = 2v + pol
-        for v in 0..nv {
+        // literals of every present variable in both polarities first: pool index of
+        // (present[k], pol) = 2k + pol
+        for v in &present {
             s.push_str(&format!(" v {v} 0 v {v} 1"));
         }
-        pool += 2 * nv;
+        pool += 2 * np;
         let ncl = 1 + rng.range(0, 1 + (frac * (if thorough { 9 } else { 6 })) / 100);
         let mut clause_idx = vec![];
         for c in 0..ncl {
-            let k = if rng.chance(1, 8) { 1 } else { rng.range(1, 3.min(nv)) };
-            let mut vs = rng.perm(nv);
+            let k = if rng.chance(1, 8) { 1 } else { rng.range(1, 3.min(np)) };
+            let mut vs = rng.perm(np); // positions in `present`; the last position is label nv-1
             vs.truncate(k);
-            if c == 0 && !vs.contains(&(nv - 1)) {
-                vs[0] = nv - 1; // the CNF mentions the last variable, so Cnf::num_vars = nv
+            if c == 0 && !vs.contains(&(np - 1)) {
+                vs[0] = np - 1; // the CNF mentions the last variable, so Cnf::num_vars = nv
             }
             s.push_str(&format!(" O {}", vs.len()));
             for v in vs {
@@ -272,8 +314,8 @@ pub fn gen(rng: &mut Rng, idx: usize, n: usize, thorough: bool) -> String {
             let pick = |rng: &mut Rng, pool: usize| -> usize {
                 if rng.chance(1, 2) && pool > 3 { pool - 1 - rng.range(0, 2) } else { rng.below(pool as u64) as usize }
             };
-            if pool < 2 || (k < nv + 1 && rng.chance(2, 3)) {
-                s.push_str(&format!(" v {} {}", rng.below(nv as u64), rng.coin() as u8));
+            if pool < 2 || (k < np + 1 && rng.chance(2, 3)) {
+                s.push_str(&format!(" v {} {}", present[rng.below(np as u64) as usize], rng.coin() as u8));
                 pool += 1;
                 continue;
             }
@@ -289,12 +331,12 @@ pub fn gen(rng: &mut Rng, idx: usize, n: usize, thorough: bool) -> String {
                 continue;
             }
             match r {
-                0..=7 => s.push_str(&format!(" v {} {}", rng.below(nv as u64), rng.coin() as u8)),
+                0..=7 => s.push_str(&format!(" v {} {}", present[rng.below(np as u64) as usize], rng.coin() as u8)),
                 8..=17 => s.push_str(&format!(" n {}", pick(rng, pool))),
                 18..=40 => s.push_str(&format!(" a {} {}", pick(rng, pool), pick(rng, pool))),
                 41..=60 => s.push_str(&format!(" o {} {}", pick(rng, pool), pick(rng, pool))),
-                61..=70 => s.push_str(&format!(" c {} {} {}", pick(rng, pool), rng.below(nv as u64), rng.coin() as u8)),
-                71..=78 => s.push_str(&format!(" q {} {}", pick(rng, pool), rng.below(nv as u64))),
+                61..=70 => s.push_str(&format!(" c {} {} {}", pick(rng, pool), present[rng.below(np as u64) as usize], rng.coin() as u8)),
+                71..=78 => s.push_str(&format!(" q {} {}", pick(rng, pool), present[rng.below(np as u64) as usize])),
                 79..=85 if rich => s.push_str(&format!(" x {} {}", pick(rng, pool), pick(rng, pool))),
                 86..=91 if rich => s.push_str(&format!(" e {} {}", pick(rng, pool), pick(rng, pool))),
                 92..=99 if rich => s.push_str(&format!(" i {} {} {}", pick(rng, pool), pick(rng, pool), pick(rng, pool))),
@@ -325,7 +367,7 @@ pub fn gen(rng: &mut Rng, idx: usize, n: usize, thorough: bool) -> String {
     for p in rng.perm(nv) {
         s.push_str(&format!(" {p}"));
     }
-    let labels: Vec<u64> = rng.perm(nv).into_iter().map(|x| x as u64).collect();
+    let labels: Vec<u64> = rng.perm(np).into_iter().map(|x| present[x] as u64).collect();
     s.push_str(&format!(" VT {}", vt_text(&vt_random(rng, &labels))));
     // cached-hash queries: `split` of them are asked when only a prefix of the program has run
     let k = rng.range(1, 6);
@@ -344,7 +386,7 @@ pub fn gen(rng: &mut Rng, idx: usize, n: usize, thorough: bool) -> String {
         }
     }
     // a second random vtree for the SDD half of the correspondence (the first is VT)
-    let labels2: Vec<u64> = rng.perm(nv).into_iter().map(|x| x as u64).collect();
+    let labels2: Vec<u64> = rng.perm(np).into_iter().map(|x| present[x] as u64).collect();
     s.push_str(&format!(" SV {}", vt_text(&vt_random(rng, &labels2))));
     s
 }
@@ -456,6 +498,14 @@ fn bdd_cached<const P: u128, const PN: u128>(prog: &Prog, queries: &[(usize, boo
         ask(&pool_pre, *i, *ng, cx, &mut out);
     }
     let pool = exec(&b, prog, &mut dummy);
+    // hashing is an observer: re-deriving the prefix after hash queries (which fill the per-node
+    // memo of every node below the queried roots) returns the very same nodes
+    for (i, (p, q)) in pool_pre.iter().zip(pool.iter()).enumerate() {
+        if p != q {
+            cx.fails.push(format!("BDD pool entry {i} re-derived after cached_semantic_hash queries (field {P}) is a different node than before the queries: canonicity lost (pointer equality fails for one function)"));
+            break;
+        }
+    }
     for (i, ng) in &queries[split..] {
         ask(&pool, *i, *ng, cx, &mut out);
     }
@@ -464,6 +514,28 @@ fn bdd_cached<const P: u128, const PN: u128>(prog: &Prog, queries: &[(usize, boo
     let mapn = create_semantic_hash_map::<PN>(nv);
     let p = if neg { pool[target].neg() } else { pool[target] };
     let mis = p.cached_semantic_hash(&order, &mapn).value();
+    // after the misuse query (its answer depends on which memos are filled): every pool entry is
+    // hashed, which fills the memo of every node the program reaches; then the program once more
+    // and every literal once more: same pointers
+    for p in pool.iter() {
+        let _ = p.cached_semantic_hash(&order, &map);
+    }
+    let pool_again = exec(&b, prog, &mut dummy);
+    for (i, (p, q)) in pool.iter().zip(pool_again.iter()).enumerate() {
+        if p != q {
+            cx.fails.push(format!("BDD pool entry {i} re-derived after every pool entry was hashed with cached_semantic_hash (field {P}) is a different node: canonicity lost"));
+            break;
+        }
+    }
+    for (i, op) in prog.ops.iter().enumerate() {
+        if let Op::Var(v, pol) = op {
+            let l = b.var(*v, *pol);
+            if l != pool[i] || !b.eq(l, pool[i]) {
+                cx.fails.push(format!("var({v}, {pol}) after cached_semantic_hash on that literal (field {P}) is not pointer-equal to the literal fetched before"));
+                break;
+            }
+        }
+    }
     (out, mis)
 }
 
@@ -593,6 +665,9 @@ fn sdd_corr<const P: u128>(name: &str, vt: &VT, prog: &Prog, queries: &[(usize, 
 }
 
 pub fn run(case: &str, st: &mut Stats) -> Outcome {
+    if case.starts_with("SOAK") {
+        return run_soak(case, st);
+    }
     let prog = parse(case);
     let nv = prog.nvars;
     let tail = &prog.rest;
@@ -706,10 +781,18 @@ pub fn run(case: &str, st: &mut Stats) -> Outcome {
     }
 
     // ---- SDDs under four vtrees
+    // right-linear over all nv labels; left-linear and even-split over the labels present in VT
+    // (all of them unless the case has a label set with gaps)
     let lin: Vec<VarLabel> = prog.pos_to_var().iter().map(|v| VarLabel::new(*v as u64)).collect();
+    let mut present = vec![];
+    vt_leaves(&vt, &mut present);
+    let gapped = present.len() != nv;
+    st.bump(if !gapped { "labels_dense_0..n-1" } else if !present.contains(&0) && present.len() == nv - 1 { "labels_one_based" } else { "labels_with_gaps" });
+    let linp: Vec<VarLabel> = lin.iter().copied().filter(|l| present.contains(&l.value())).collect();
+    let npres = linp.len();
     sdd_rep::<P0>("right-linear", VTree::right_linear(&lin), &prog, prefix, target, neg, is_cnf, &spec, &mut cx, st);
-    sdd_rep::<P1>("left-linear", VTree::left_linear(&lin), &prog, prefix, target, neg, is_cnf, &spec, &mut cx, st);
-    sdd_rep::<P2>("even-split", VTree::even_split(&lin, if nv >= 4 { 2 } else if nv >= 2 { 1 } else { 0 }), &prog, prefix, target, neg, is_cnf, &spec, &mut cx, st);
+    sdd_rep::<P1>("left-linear", VTree::left_linear(&linp), &prog, prefix, target, neg, is_cnf, &spec, &mut cx, st);
+    sdd_rep::<P2>("even-split", VTree::even_split(&linp, if npres >= 4 { 2 } else if npres >= 2 { 1 } else { 0 }), &prog, prefix, target, neg, is_cnf, &spec, &mut cx, st);
     sdd_rep::<P2>("random", vt_rsdd(&vt), &prog, prefix, target, neg, is_cnf, &spec, &mut cx, st);
 
     // ---- top-down (decision-DNNF) under two orders
@@ -804,6 +887,27 @@ pub fn run(case: &str, st: &mut Stats) -> Outcome {
     } else {
         st.bump("semantic_sdd_skipped_unsupported_ops");
     }
+    // the vtree a user would derive from the CNF itself (dtree of the min-fill order): its leaves are
+    // the variables that occur in some clause, in general a label set with gaps
+    if is_cnf {
+        let cnf = cnf_of(&prog);
+        if let Some(dv) = VTree::from_dtree(&DTree::from_cnf(&cnf, &cnf.min_fill_order())) {
+            let span = dv.num_vars(); // largest label + 1; the builder's num_vars() is the number of leaves
+            let b = SemanticSddBuilder::<P2>::new(dv);
+            st.bump(if b.num_vars() == span { "semantic_sdd_dtree_vtree_dense_labels" } else { "semantic_sdd_dtree_vtree_labels_with_gaps" });
+            let c = b.compile_cnf(&cnf);
+            let mut memo = HashMap::new();
+            let tc = tt_sdd(c, &mut memo) & full(nv);
+            if tc != spec[target] & full(nv) {
+                cx.fails.push(format!("SemanticSddBuilder over the CNF's dtree vtree: compile_cnf denotes table {tc:x}, the CNF says {:x}", spec[target] & full(nv)));
+            }
+            let h = b.cached_semantic_hash(c).value();
+            let want = defining_sum(spec[target] & full(nv), nv, &real[2], P2);
+            if h != want {
+                cx.fails.push(format!("SemanticSddBuilder over the CNF's dtree vtree: cached hash {h} but the sum over the models of the CNF is {want}"));
+            }
+        }
+    }
     if is_cnf {
         let cnf = cnf_of(&prog);
         for (oi, ord) in [prog.var_to_pos.clone(), o2.clone()].iter().enumerate() {
@@ -871,4 +975,788 @@ pub fn run(case: &str, st: &mut Stats) -> Outcome {
     st.bump(&format!("target_depends_on={deps}"));
     let nontrivial = deps >= 2;
     Outcome { result: line, fails: cx.fails, nontrivial }
+}
+
+// ================================================================ soak cases (oracle only)
+//
+// case:  SOAK S <seed> <nv> <nops> <maxc> <bin%> VT <vtree>   one long-lived SemanticSddBuilder<U64_LARGEST>
+//           <maxc> in 1..4: and / or results with more cubes are not built; <bin%> <= 45: share of and / or
+//           operations on earlier results (uncompressed SDDs of DNFs are slow under non-linear vtrees)
+//        SOAK D <seed> <nv> <nops> <var_to_pos>*nv       one long-lived SemanticDecisionNNFBuilder<U64_LARGEST>
+//        SOAK X <nv> VT <vtree> (C|K <k> <dimacs lit>*k)*  an explicit list of cubes (C) / clauses (K)
+//                                                        built one after the other in one builder of each kind
+// The operation stream of S / D is drawn from <seed> by the harness's own generator at run time
+// (a 200k-operation program does not fit a case line); the first <nops> operations are run, so a
+// failing case is minimised by lowering <nops> (the failure message names the operation).
+//
+// Every function built is represented on the oracle side by its DEFINING STRUCTURE, never by a
+// table: S -- a DNF of at most 4 cubes or the negation of one (cubes, clauses, small CNFs/DNFs and
+// their combinations under and / or / negate / condition / exists), whose defining sum
+// sum_{models} prod weights is computed exactly by inclusion-exclusion over the cubes (a cube's sum
+// is the product of its literal weights since low + high = 1 for the unmentioned variables);
+// D -- a decision node (var, low, high) over earlier nodes of strictly deeper levels, whose defining
+// sum is low_w * sum(low) + high_w * sum(high) (Shannon expansion, children do not mention var), or
+// a CNF of at most 3 clauses.  Checked after EVERY operation: the cached semantic hash of the
+// returned diagram equals the defining sum; the diagram (walked node by node) agrees with the
+// defining structure on a random assignment, on a model of one of its cubes and on a neighbour of that
+// model; eq / pointer identity with the first earlier result of equal (or complemented) defining
+// sum holds, eq with a random earlier result holds iff the sums are equal, and whenever two sums are
+// equal the two functions agree on 256 fixed assignments (otherwise: a genuine 64-bit collision).
+// These cases have no Coq-model counterpart: the driver prints the same fixed token.
+const SOAK_LINE: &str = "soak=oracle-only";
+type Sig = [u64; 4];
+
+/// a, b < P2 < 2^64, so the product is exact in u128
+fn mm(a: u128, b: u128) -> u128 {
+    (a * b) % P2
+}
+
+#[derive(Clone, Copy, PartialEq, Eq, PartialOrd, Ord, Debug)]
+struct Cube {
+    m: u32, // mentioned variables
+    v: u32, // their values (subset of m)
+}
+impl Cube {
+    fn and(self, o: Cube) -> Option<Cube> {
+        if (self.m & o.m) & (self.v ^ o.v) != 0 { None } else { Some(Cube { m: self.m | o.m, v: self.v | o.v }) }
+    }
+    fn holds(self, a: u32) -> bool {
+        a & self.m == self.v
+    }
+}
+/// neg XOR (OR of the first n cubes)
+#[derive(Clone, Copy, Debug)]
+struct Fun {
+    neg: bool,
+    n: usize,
+    c: [Cube; 4],
+}
+impl Fun {
+    fn konst(b: bool) -> Fun {
+        Fun { neg: false, n: b as usize, c: [Cube { m: 0, v: 0 }; 4] }
+    }
+    /// normal form: sorted, no duplicate and no subsumed cube; None if more than 4 cubes remain
+    fn of(neg: bool, mut v: Vec<Cube>) -> Option<Fun> {
+        v.sort();
+        v.dedup();
+        let mut keep: Vec<Cube> = vec![];
+        for (i, c) in v.iter().enumerate() {
+            let subsumed = v.iter().enumerate().any(|(j, d)| j != i && d.m & c.m == d.m && c.v & d.m == d.v && (d.m != c.m || j < i));
+            if !subsumed {
+                keep.push(*c);
+            }
+        }
+        if keep.len() > 4 {
+            return None;
+        }
+        let mut f = Fun { neg, n: keep.len(), c: [Cube { m: 0, v: 0 }; 4] };
+        f.c[..keep.len()].copy_from_slice(&keep);
+        Some(f)
+    }
+    fn cubes(&self) -> &[Cube] {
+        &self.c[..self.n]
+    }
+    fn eval(&self, a: u32) -> bool {
+        self.cubes().iter().any(|c| c.holds(a)) != self.neg
+    }
+    fn not(&self) -> Fun {
+        Fun { neg: !self.neg, ..*self }
+    }
+    fn product(a: &Fun, b: &Fun) -> Vec<Cube> {
+        let mut v = vec![];
+        for x in a.cubes() {
+            for y in b.cubes() {
+                if let Some(z) = x.and(*y) {
+                    v.push(z);
+                }
+            }
+        }
+        v
+    }
+    fn union(a: &Fun, b: &Fun) -> Vec<Cube> {
+        a.cubes().iter().chain(b.cubes().iter()).copied().collect()
+    }
+    /// and / or of two functions of the same polarity (De Morgan for the negated family)
+    fn combine(is_and: bool, a: &Fun, b: &Fun) -> Option<Fun> {
+        if a.neg != b.neg {
+            return None;
+        }
+        let cubes = if is_and != a.neg { Fun::product(a, b) } else { Fun::union(a, b) };
+        Fun::of(a.neg, cubes)
+    }
+    fn condition(&self, v: usize, val: bool) -> Fun {
+        let bit = 1u32 << v;
+        let cubes: Vec<Cube> = self.cubes().iter().filter(|c| c.m & bit == 0 || (c.v & bit != 0) == val).map(|c| Cube { m: c.m & !bit, v: c.v & !bit }).collect();
+        Fun::of(self.neg, cubes).unwrap()
+    }
+    /// only for the positive family
+    fn exists(&self, v: usize) -> Fun {
+        let bit = 1u32 << v;
+        Fun::of(false, self.cubes().iter().map(|c| Cube { m: c.m & !bit, v: c.v & !bit }).collect()).unwrap()
+    }
+    fn text(&self) -> String {
+        let cube = |c: &Cube| -> String {
+            if c.m == 0 {
+                return "true".to_string();
+            }
+            (0..32).filter(|v| c.m >> v & 1 == 1).map(|v| format!("{}x{v}", if c.v >> v & 1 == 1 { "" } else { "!" })).collect::<Vec<_>>().join("&")
+        };
+        let body = if self.n == 0 { "false".to_string() } else { self.cubes().iter().map(cube).collect::<Vec<_>>().join(" | ") };
+        if self.neg { format!("!({body})") } else { format!("({body})") }
+    }
+    /// as an item of a SOAK X case, when the function is a single cube or a single clause
+    fn as_item(&self) -> Option<String> {
+        if self.n != 1 || self.c[0].m == 0 {
+            return None;
+        }
+        let c = self.c[0];
+        let lits: Vec<String> = (0..32).filter(|v| c.m >> v & 1 == 1).map(|v| { let pos = (c.v >> v & 1 == 1) != self.neg; format!("{}{}", if pos { "" } else { "-" }, v + 1) }).collect();
+        Some(format!("{} {} {}", if self.neg { "K" } else { "C" }, lits.len(), lits.join(" ")))
+    }
+}
+fn cube_sum(c: Cube, w: &[(u128, u128)]) -> u128 {
+    let mut p = 1u128;
+    let mut m = c.m;
+    while m != 0 {
+        let v = m.trailing_zeros() as usize;
+        p = mm(p, if c.v >> v & 1 == 1 { w[v].1 } else { w[v].0 });
+        m &= m - 1;
+    }
+    p
+}
+/// the defining sum of the function by inclusion-exclusion over its cubes
+fn fun_sum(f: &Fun, w: &[(u128, u128)]) -> u128 {
+    let mut s = 0u128;
+    for mask in 1u32..(1u32 << f.n) {
+        let mut c = Some(Cube { m: 0, v: 0 });
+        for i in 0..f.n {
+            if mask >> i & 1 == 1 {
+                c = c.and_then(|x| x.and(f.c[i]));
+            }
+        }
+        if let Some(c) = c {
+            let h = cube_sum(c, w);
+            s = addmod(s, if mask.count_ones() % 2 == 1 { h } else { (P2 - h) % P2 }, P2);
+        }
+    }
+    if f.neg { one_minus(s, P2) } else { s }
+}
+fn sig_not(a: Sig) -> Sig {
+    [!a[0], !a[1], !a[2], !a[3]]
+}
+fn fun_sig(f: &Fun, vs: &[Sig]) -> Sig {
+    let mut r: Sig = [0; 4];
+    for c in f.cubes() {
+        let mut x: Sig = [!0; 4];
+        let mut m = c.m;
+        while m != 0 {
+            let v = m.trailing_zeros() as usize;
+            for k in 0..4 {
+                x[k] &= if c.v >> v & 1 == 1 { vs[v][k] } else { !vs[v][k] };
+            }
+            m &= m - 1;
+        }
+        for k in 0..4 {
+            r[k] |= x[k];
+        }
+    }
+    if f.neg { sig_not(r) } else { r }
+}
+/// 256 fixed assignments: per variable the 256-bit column, and the assignments as bit vectors
+fn soak_assignments(rng: &mut Rng, nv: usize) -> (Vec<Sig>, Vec<u32>) {
+    let vs: Vec<Sig> = (0..nv).map(|_| [rng.next(), rng.next(), rng.next(), rng.next()]).collect();
+    let asgs = (0..256).map(|a| (0..nv).fold(0u32, |acc, v| acc | (((vs[v][a / 64] >> (a % 64)) & 1) as u32) << v)).collect();
+    (vs, asgs)
+}
+/// one assignment, walking nodes / elements / complement marks (memo on node addresses)
+fn ev_sdd(p: SddPtr, a: u32, memo: &mut HashMap<usize, bool>) -> bool {
+    match p {
+        SddPtr::PtrTrue => true,
+        SddPtr::PtrFalse => false,
+        SddPtr::Var(l, b) => (a >> l.value() & 1 == 1) == b,
+        SddPtr::BDD(n) | SddPtr::ComplBDD(n) => {
+            let key = n as *const _ as usize;
+            let x = match memo.get(&key) {
+                Some(x) => *x,
+                None => {
+                    let x = if a >> n.label().value() & 1 == 1 { ev_sdd(n.high(), a, memo) } else { ev_sdd(n.low(), a, memo) };
+                    memo.insert(key, x);
+                    x
+                }
+            };
+            x != matches!(p, SddPtr::ComplBDD(_))
+        }
+        SddPtr::Reg(o) | SddPtr::Compl(o) => {
+            let key = o as *const _ as usize;
+            let x = match memo.get(&key) {
+                Some(x) => *x,
+                None => {
+                    let mut x = false;
+                    for e in o.iter() {
+                        if ev_sdd(e.prime(), a, memo) && ev_sdd(e.sub(), a, memo) {
+                            x = true;
+                            break;
+                        }
+                    }
+                    memo.insert(key, x);
+                    x
+                }
+            };
+            x != matches!(p, SddPtr::Compl(_))
+        }
+    }
+}
+
+struct SddSoak<'a> {
+    b: &'a SemanticSddBuilder<'a, P2>,
+    nv: usize,
+    w: Vec<(u128, u128)>,
+    vs: Vec<Sig>,
+    asgs: Vec<u32>,
+    /// defining sum -> (first result with that sum, its signature, its description, operation number)
+    seen: HashMap<u128, (SddPtr<'a>, Sig, Fun, usize)>,
+    pool: Vec<(SddPtr<'a>, Fun, u128)>,
+    fails: Vec<String>,
+    rng: Rng,
+    memo: HashMap<usize, bool>,
+    opno: usize,
+    vtree: String,
+    /// results of and / or with more cubes than this are not built (uncompressed SDDs of wider DNFs are slow under non-linear vtrees)
+    maxc: usize,
+    /// percentage of and / or operations on earlier results (at most 45; the rest of that share goes to literal folds)
+    binpct: u64,
+    /// time per operation kind (reported under VERIF_SOAK_VERBOSE only)
+    tm: HashMap<&'static str, (u64, u64)>,
+    last: &'static str,
+}
+impl<'a> SddSoak<'a> {
+    fn new(b: &'a SemanticSddBuilder<'a, P2>, nv: usize, seed: u64, vtree: String) -> SddSoak<'a> {
+        let mut rng = Rng::new(seed);
+        let (vs, asgs) = soak_assignments(&mut rng, nv);
+        let w = real_weights::<P2>(nv);
+        let mut fails = vec![];
+        for (v, wv) in w.iter().enumerate() {
+            let (l, h) = b.map().var_weight(VarLabel::new(v as u64));
+            if (l.value(), h.value()) != *wv {
+                fails.push(format!("soak-sdd: the builder's weight of variable {v} is not the one of create_semantic_hash_map"));
+            }
+        }
+        let mut seen = HashMap::new();
+        seen.insert(1u128, (SddPtr::PtrTrue, [!0u64; 4], Fun::konst(true), 0));
+        SddSoak { b, nv, w, vs, asgs, seen, pool: vec![], fails, rng, memo: HashMap::new(), opno: 0, vtree, maxc: 4, binpct: 45, tm: HashMap::new(), last: "" }
+    }
+    fn replay_hint(&self, earlier: &Fun, now: &Fun) -> String {
+        match (earlier.as_item(), now.as_item()) {
+            (Some(a), Some(b)) => format!(" [minimal replay: SOAK X {} VT {} {a} {b}]", self.nv, self.vtree),
+            _ => String::new(),
+        }
+    }
+    /// all checks on one operation result; returns the defining sum
+    fn check(&mut self, what: &'static str, r: SddPtr<'a>, f: &Fun) -> u128 {
+        let b = self.b;
+        self.last = what;
+        let want = fun_sum(f, &self.w);
+        let got = b.cached_semantic_hash(r).value();
+        let k = self.opno;
+        if got != want {
+            let culprit = match (self.seen.get(&got), self.seen.get(&one_minus(got, P2))) {
+                (Some((_, _, g, j)), _) => format!("; {got} is the sum of {} built at operation {j}{}", g.text(), self.replay_hint(g, f)),
+                (_, Some((_, _, g, j))) => format!("; {got} is the sum of the negation of {} built at operation {j}{}", g.text(), self.replay_hint(g, f)),
+                _ => String::new(),
+            };
+            self.fails.push(format!("soak-sdd operation {k} ({what}): the diagram returned for {} has cached semantic hash {got}, the defining sum of that function is {want}{culprit}", f.text()));
+        }
+        // the diagram against the defining structure: a random assignment, a model of one cube, a neighbour
+        let a0 = self.asgs[self.rng.below(256) as usize];
+        let mut tests = [a0, a0, a0];
+        if f.n > 0 {
+            let c = f.c[self.rng.below(f.n as u64) as usize];
+            let base = ((self.rng.next() as u32 & !c.m) | c.v) & ((1u32 << self.nv) - 1);
+            tests[1] = base;
+            if c.m != 0 {
+                let bits: Vec<u32> = (0..32).filter(|v| c.m >> v & 1 == 1).collect();
+                tests[2] = base ^ (1 << *self.rng.pick(&bits));
+            }
+        }
+        for t in tests {
+            if self.memo.capacity() > 512 {
+                self.memo = HashMap::new();
+            } else {
+                self.memo.clear();
+            }
+            let e = ev_sdd(r, t, &mut self.memo);
+            if e != f.eval(t) {
+                self.fails.push(format!("soak-sdd operation {k} ({what}): the diagram returned for {} evaluates to {e} on the assignment {t:#b} (bit v = variable v), the function is {}", f.text(), !e));
+                break;
+            }
+        }
+        // eq with the first earlier result of equal / complemented sum
+        let sig = fun_sig(f, &self.vs);
+        if let Some((p0, s0, g, j)) = self.seen.get(&want) {
+            if !b.eq(r, *p0) {
+                self.fails.push(format!("soak-sdd operation {k} ({what}): eq judges {} different from {} (operation {j}) although both have defining sum {want}", f.text(), g.text()));
+            }
+            if *s0 != sig {
+                self.fails.push(format!("soak-sdd operation {k}: {} and {} (operation {j}) are different functions with the same defining sum {want}: a genuine collision in the 64-bit field", f.text(), g.text()));
+            }
+        } else if let Some((p0, s0, g, j)) = self.seen.get(&one_minus(want, P2)) {
+            if !b.eq(r, p0.neg()) {
+                self.fails.push(format!("soak-sdd operation {k} ({what}): eq judges {} different from the negation of {} (operation {j}) although the defining sums are {want} and 1 - {want}", f.text(), g.text()));
+            }
+            if sig_not(*s0) != sig {
+                self.fails.push(format!("soak-sdd operation {k}: {} and the negation of {} (operation {j}) are different functions with the same defining sum {want}: a genuine collision in the 64-bit field", f.text(), g.text()));
+            }
+        } else {
+            self.seen.insert(want, (r, sig, *f, k));
+        }
+        // eq with a random earlier result
+        if !self.pool.is_empty() {
+            let (p, g, hg) = self.pool[self.rng.below(self.pool.len() as u64) as usize];
+            let e = b.eq(r, p);
+            if e != (hg == want) {
+                self.fails.push(format!("soak-sdd operation {k} ({what}): eq({}, {}) = {e} but the defining sums are {want} and {hg}", f.text(), g.text()));
+            }
+            if hg == want && fun_sig(&g, &self.vs) != sig {
+                self.fails.push(format!("soak-sdd operation {k}: {} and {} are different functions with the same defining sum {want}: a genuine collision in the 64-bit field", f.text(), g.text()));
+            }
+        }
+        want
+    }
+    fn keep(&mut self, r: SddPtr<'a>, f: Fun, h: u128) {
+        if f.n == 0 || (f.n == 1 && f.c[0].m == 0) {
+            return; // constants are useless operands
+        }
+        if self.pool.len() < 4096 {
+            self.pool.push((r, f, h));
+        } else {
+            let i = self.rng.below(4096) as usize;
+            self.pool[i] = (r, f, h);
+        }
+    }
+    /// a cube (and-fold of the literals) or a clause (or-fold); lits = (variable, polarity)
+    fn build_lits(&mut self, lits: &[(usize, bool)], clause: bool) -> (SddPtr<'a>, Fun) {
+        let b = self.b;
+        let mut p = if clause { SddPtr::PtrFalse } else { SddPtr::PtrTrue };
+        for (v, pol) in lits {
+            let l = BottomUpBuilder::var(b, VarLabel::new(*v as u64), *pol);
+            p = if clause { b.or(p, l) } else { b.and(p, l) };
+        }
+        let f = lits_fun(lits, clause);
+        (p, f)
+    }
+    fn random_lits(&mut self, k: usize) -> Vec<(usize, bool)> {
+        let mut vars = self.rng.perm(self.nv);
+        vars.truncate(k.min(self.nv));
+        vars.into_iter().map(|v| (v, self.rng.coin())).collect()
+    }
+    fn pick(&mut self) -> usize {
+        let n = self.pool.len();
+        if self.rng.coin() { n - 1 - self.rng.below(n.min(64) as u64) as usize } else { self.rng.below(n as u64) as usize }
+    }
+    fn step(&mut self, st: &mut Stats) {
+        let t0 = std::time::Instant::now();
+        self.last = "skipped";
+        self.step1(st);
+        let e = self.tm.entry(self.last).or_insert((0, 0));
+        e.0 += 1;
+        e.1 += t0.elapsed().as_nanos() as u64;
+    }
+    fn step1(&mut self, st: &mut Stats) {
+        let b = self.b;
+        self.opno += 1;
+        let r = self.rng.below(100);
+        if self.pool.len() < 8 || r < 45 || (r < 90 && r >= 45 + self.binpct) {
+            let clause = r % 3 == 0;
+            let k = match self.rng.below(10) { 0 => self.rng.range(1, 2), 1 => self.rng.range(7, 9), _ => self.rng.range(3, 6) };
+            let lits = self.random_lits(k);
+            let (p, f) = self.build_lits(&lits, clause);
+            let h = self.check(if clause { "or-fold of literals" } else { "and-fold of literals" }, p, &f);
+            self.keep(p, f, h);
+            st.bump(if clause { "soak_sdd_op_clause" } else { "soak_sdd_op_cube" });
+        } else if r < 90 {
+            for _ in 0..6 {
+                let (i, j) = (self.pick(), self.rng.below(self.pool.len() as u64) as usize);
+                let (pa, fa, _) = self.pool[i];
+                let (mut pb, mut fb, _) = self.pool[j];
+                if fa.neg != fb.neg {
+                    pb = b.negate(pb);
+                    fb = fb.not();
+                }
+                // mostly the operation that concatenates (or on DNFs, and on CNFs): its results are rarely constant
+                let concat = self.rng.chance(7, 10);
+                let is_and = if fa.neg { concat } else { !concat };
+                if let Some(f) = Fun::combine(is_and, &fa, &fb).filter(|f| f.n <= self.maxc) {
+                    let p = if is_and { b.and(pa, pb) } else { b.or(pa, pb) };
+                    let h = self.check(if is_and { "and" } else { "or" }, p, &f);
+                    self.keep(p, f, h);
+                    st.bump(if is_and { "soak_sdd_op_and" } else { "soak_sdd_op_or" });
+                    return;
+                }
+            }
+            st.bump("soak_sdd_op_skipped_not_representable");
+        } else if r < 94 {
+            let i = self.pick();
+            let (p, f, _) = self.pool[i];
+            let (q, g) = (b.negate(p), f.not());
+            let h = self.check("negate", q, &g);
+            self.keep(q, g, h);
+            st.bump("soak_sdd_op_negate");
+        } else {
+            let i = self.pick();
+            let (p, f, _) = self.pool[i];
+            let mentioned: Vec<usize> = (0..self.nv).filter(|v| f.cubes().iter().any(|c| c.m >> v & 1 == 1)).collect();
+            let v = if !mentioned.is_empty() && self.rng.chance(4, 5) { *self.rng.pick(&mentioned) } else { self.rng.below(self.nv as u64) as usize };
+            if f.neg || self.rng.coin() {
+                let val = self.rng.coin();
+                let q = BottomUpBuilder::condition(b, p, VarLabel::new(v as u64), val);
+                let g = f.condition(v, val);
+                let h = self.check("condition", q, &g);
+                self.keep(q, g, h);
+                st.bump("soak_sdd_op_condition");
+            } else {
+                let q = b.exists(p, VarLabel::new(v as u64));
+                let g = f.exists(v);
+                let h = self.check("exists", q, &g);
+                self.keep(q, g, h);
+                st.bump("soak_sdd_op_exists");
+            }
+        }
+    }
+}
+
+fn soak_sdd(seed: u64, nv: usize, nops: usize, maxc: usize, binpct: u64, vt: &VT, st: &mut Stats) -> Vec<String> {
+    let b = SemanticSddBuilder::<P2>::new(vt_rsdd(vt));
+    let mut s = SddSoak::new(&b, nv, seed, vt_text(vt));
+    s.maxc = maxc;
+    s.binpct = binpct.min(45);
+    let t0 = std::time::Instant::now();
+    while s.opno < nops && s.fails.is_empty() {
+        s.step(st);
+    }
+    let stats = b.stats();
+    st.add("soak_sdd_operations", s.opno as u64);
+    st.add("soak_sdd_distinct_functions_(defining_sums)", s.seen.len() as u64);
+    st.add("soak_sdd_nodes_stored_in_the_builder", stats.app_cache_size as u64);
+    if std::env::var("VERIF_SOAK_VERBOSE").is_ok() {
+        eprintln!("soak S: nv {nv} ops {} distinct {} nodes {} in {:?}, fails {}", s.opno, s.seen.len(), stats.app_cache_size, t0.elapsed(), s.fails.len());
+        for (k, (n, ns)) in &s.tm {
+            eprintln!("   {k}: {n} operations, {} ns each", ns / n.max(&1));
+        }
+    }
+    s.fails.truncate(5);
+    s.fails
+}
+
+/// one long-lived top-down builder: decision nodes requested directly through get_or_insert
+/// (children = earlier nodes of strictly deeper levels, either polarity, or constants) and small
+/// CNFs through compile_cnf_topdown
+fn soak_dnnf(seed: u64, nv: usize, nops: usize, var_to_pos: &[usize], st: &mut Stats) -> Vec<String> {
+    struct ON<'a> {
+        h: u128,
+        sig: Sig,
+        ptr: BddPtr<'a>,
+    }
+    let mut rng = Rng::new(seed);
+    let (vs, asgs) = soak_assignments(&mut rng, nv);
+    let w = real_weights::<P2>(nv);
+    let order = order_of(var_to_pos);
+    rsdd::verif::TABLE_CAPACITY.with(|c| c.set(Some(1024)));
+    let b = SemanticDecisionNNFBuilder::<P2>::new(order_of(var_to_pos));
+    rsdd::verif::TABLE_CAPACITY.with(|c| c.set(None));
+    let map = create_semantic_hash_map::<P2>(nv);
+    let mut pos_to_var = vec![0usize; nv];
+    for (v, p) in var_to_pos.iter().enumerate() {
+        pos_to_var[*p] = v;
+    }
+    let mut fails: Vec<String> = vec![];
+    let mut nodes: Vec<ON> = vec![ON { h: 1, sig: [!0; 4], ptr: BddPtr::PtrTrue }];
+    let mut by_level: Vec<Vec<usize>> = vec![vec![]; nv];
+    let mut seen: HashMap<u128, usize> = HashMap::new();
+    seen.insert(1, 0);
+    let mut addrs: HashSet<usize> = HashSet::new();
+    let t0 = std::time::Instant::now();
+    let mut k = 0usize;
+    let (mut n_new, mut n_old, mut n_cnf, mut n_internal, mut t_cnf) = (0u64, 0u64, 0u64, 0u64, 0u64);
+    while k < nops && fails.is_empty() {
+        k += 1;
+        if rng.chance(1, 400) {
+            // a small CNF (mentions the last variable, so Cnf::num_vars = nv = the order's)
+            let ncl = rng.range(1, 3);
+            let mut clauses = vec![];
+            let mut cubes = vec![];
+            for c in 0..ncl {
+                let kk = rng.range(2, 5);
+                let mut vars = rng.perm(nv);
+                vars.truncate(kk);
+                if c == 0 && !vars.contains(&(nv - 1)) {
+                    vars[0] = nv - 1;
+                }
+                let lits: Vec<(usize, bool)> = vars.into_iter().map(|v| (v, rng.coin())).collect();
+                clauses.push(lits.iter().map(|(v, p)| Literal::new(VarLabel::new(*v as u64), *p)).collect::<Vec<_>>());
+                cubes.push(lits.iter().fold(Cube { m: 0, v: 0 }, |c, (v, p)| Cube { m: c.m | 1 << v, v: c.v | if *p { 0 } else { 1 << v } }));
+            }
+            let f = Fun::of(true, cubes).unwrap();
+            let tq = std::time::Instant::now();
+            let r = b.compile_cnf_topdown(&Cnf::new(&clauses));
+            t_cnf += tq.elapsed().as_nanos() as u64;
+            let want = fun_sum(&f, &w);
+            let got = r.cached_semantic_hash(&order, &map).value();
+            if got != want {
+                fails.push(format!("soak-dnnf operation {k}: compile_cnf_topdown of the CNF {} returns a diagram with cached semantic hash {got}, the defining sum is {want}", f.text()));
+            }
+            let c = f.c[rng.below(f.n as u64) as usize];
+            let base = ((rng.next() as u32 & !c.m) | c.v) & ((1u32 << nv) - 1);
+            let bits: Vec<u32> = (0..32).filter(|v| c.m >> v & 1 == 1).collect();
+            for t in [asgs[rng.below(256) as usize], base, base ^ (1 << *rng.pick(&bits))] {
+                let e = eval_ptr(r, t as usize);
+                if e != f.eval(t) {
+                    fails.push(format!("soak-dnnf operation {k}: compile_cnf_topdown of the CNF {} evaluates to {e} on the assignment {t:#b}", f.text()));
+                    break;
+                }
+            }
+            n_cnf += 1;
+            continue;
+        }
+        let level = rng.below(nv as u64) as usize;
+        let var = pos_to_var[level];
+        let child = |rng: &mut Rng| -> (usize, bool) {
+            let mut l2 = level + 1 + rng.below(4) as usize;
+            while l2 < nv && by_level[l2].is_empty() {
+                l2 += 1;
+            }
+            if l2 >= nv || rng.chance(1, 12) { (0, rng.coin()) } else { (*rng.pick(&by_level[l2]), rng.coin()) }
+        };
+        let (lo, hi) = (child(&mut rng), child(&mut rng));
+        let val = |x: (usize, bool)| -> (u128, Sig, BddPtr) {
+            let n = &nodes[x.0];
+            if x.1 { (one_minus(n.h, P2), sig_not(n.sig), n.ptr.neg()) } else { (n.h, n.sig, n.ptr) }
+        };
+        let (hl, sl, pl) = val(lo);
+        let (hh, sh, ph) = val(hi);
+        if hl == hh {
+            continue; // a redundant test
+        }
+        let want = addmod(mm(w[var].0, hl), mm(w[var].1, hh), P2);
+        let mut sig: Sig = [0; 4];
+        for q in 0..4 {
+            sig[q] = (vs[var][q] & sh[q]) | (!vs[var][q] & sl[q]);
+        }
+        let r = b.get_or_insert(BddNode::new(VarLabel::new(var as u64), pl, ph));
+        let got = r.cached_semantic_hash(&order, &map).value();
+        let descr = || format!("the decision node (x{var} ? node {}{} : node {}{})", if hi.1 { "!" } else { "" }, hi.0, if lo.1 { "!" } else { "" }, lo.0);
+        if got != want {
+            let culprit = match (seen.get(&got), seen.get(&one_minus(got, P2))) {
+                (Some(j), _) => format!("; {got} is the sum of node {j}"),
+                (_, Some(j)) => format!("; {got} is the sum of the negation of node {j}"),
+                _ => String::new(),
+            };
+            fails.push(format!("soak-dnnf operation {k}: get_or_insert of {} (node {}) returns a diagram with cached semantic hash {got}, the defining sum low_w*sum(low) + high_w*sum(high) is {want}{culprit}", descr(), nodes.len()));
+        }
+        for _ in 0..2 {
+            let a = rng.below(256) as usize;
+            let e = eval_ptr(r, asgs[a] as usize);
+            if e != (sig[a / 64] >> (a % 64) & 1 == 1) {
+                fails.push(format!("soak-dnnf operation {k}: the diagram returned for {} evaluates to {e} on the assignment {:#b}", descr(), asgs[a]));
+                break;
+            }
+        }
+        if let Some(j) = seen.get(&want) {
+            if r != nodes[*j].ptr {
+                fails.push(format!("soak-dnnf operation {k}: {} has the defining sum of node {j} but get_or_insert returns a different pointer", descr()));
+            }
+            if sig != nodes[*j].sig {
+                fails.push(format!("soak-dnnf operation {k}: {} and node {j} are different functions with the same defining sum {want}: a genuine collision in the 64-bit field", descr()));
+            }
+            n_old += 1;
+        } else if let Some(j) = seen.get(&one_minus(want, P2)) {
+            if r != nodes[*j].ptr.neg() {
+                fails.push(format!("soak-dnnf operation {k}: {} has the defining sum of the negation of node {j} but get_or_insert does not return that node complemented", descr()));
+            }
+            if sig != sig_not(nodes[*j].sig) {
+                fails.push(format!("soak-dnnf operation {k}: {} and the negation of node {j} are different functions with the same defining sum {want}: a genuine collision in the 64-bit field", descr()));
+            }
+            n_old += 1;
+        } else {
+            // a function not requested before through this loop; it may still be stored already (the
+            // CNF compilations insert nodes of their own), so an old address is only counted
+            let fresh = match r {
+                BddPtr::Reg(n) => addrs.insert(n as *const _ as usize),
+                BddPtr::Compl(n) => addrs.insert(n as *const _ as usize),
+                _ => false,
+            };
+            if !fresh {
+                n_internal += 1;
+            }
+            seen.insert(want, nodes.len());
+            by_level[level].push(nodes.len());
+            nodes.push(ON { h: want, sig, ptr: r });
+            n_new += 1;
+        }
+    }
+    st.add("soak_dnnf_operations", k as u64);
+    st.add("soak_dnnf_new_nodes", n_new);
+    st.add("soak_dnnf_requests_for_known_functions", n_old);
+    st.add("soak_dnnf_cnf_compilations", n_cnf);
+    st.add("soak_dnnf_new_functions_found_stored_by_a_cnf_compilation", n_internal);
+    st.add("soak_dnnf_nodes_stored_in_the_builder", b.stats().num_nodes_alloc as u64);
+    if std::env::var("VERIF_SOAK_VERBOSE").is_ok() {
+        eprintln!("soak D: nv {nv} ops {k} new {n_new} known {n_old} cnf {n_cnf} stored {} in {:?} (of which CNF compilation {} ms), fails {}", b.stats().num_nodes_alloc, t0.elapsed(), t_cnf / 1_000_000, fails.len());
+    }
+    fails.truncate(5);
+    fails
+}
+
+/// the function of a literal list read as a cube / as a clause (a clause is the negation of the
+/// cube of the complemented literals)
+fn lits_fun(lits: &[(usize, bool)], clause: bool) -> Fun {
+    let mut c = Some(Cube { m: 0, v: 0 });
+    for (v, pol) in lits {
+        c = c.and_then(|x| x.and(Cube { m: 1 << v, v: if *pol != clause { 1 << v } else { 0 } }));
+    }
+    match c {
+        Some(c) => Fun::of(clause, vec![c]).unwrap(),
+        None => Fun::konst(clause), // complementary literals: the cube is false, the clause true
+    }
+}
+fn lits_cnf(lits: &[(usize, bool)], clause: bool) -> Cnf {
+    let lit = |(v, p): &(usize, bool)| Literal::new(VarLabel::new(*v as u64), *p);
+    let cl: Vec<Vec<Literal>> = if clause { vec![lits.iter().map(lit).collect()] } else { lits.iter().map(|l| vec![lit(l)]).collect() };
+    Cnf::new(&cl)
+}
+
+/// explicit cubes / clauses one after the other in one builder of each kind
+fn soak_explicit(nv: usize, vt: &VT, items: &[(bool, Vec<(usize, bool)>)], st: &mut Stats) -> Vec<String> {
+    let b = SemanticSddBuilder::<P2>::new(vt_rsdd(vt));
+    let mut s = SddSoak::new(&b, nv, 1, vt_text(vt));
+    for (clause, lits) in items {
+        s.opno += 1;
+        let (p, f) = s.build_lits(lits, *clause);
+        let h = s.check(if *clause { "or-fold of literals" } else { "and-fold of literals" }, p, &f);
+        s.keep(p, f, h);
+        // the same function through compile_cnf (a cube = unit clauses)
+        let c = b.compile_cnf(&lits_cnf(lits, *clause));
+        s.check("compile_cnf", c, &f);
+    }
+    let mut fails = s.fails.clone();
+    // top-down builder under the linear order: the items whose CNF mentions the last variable
+    // (Cnf::num_vars = nv = the order's number of variables)
+    let w = real_weights::<P2>(nv);
+    let lin: Vec<usize> = (0..nv).collect();
+    let order = order_of(&lin);
+    let d = SemanticDecisionNNFBuilder::<P2>::new(order_of(&lin));
+    let map = create_semantic_hash_map::<P2>(nv);
+    let mut rng = Rng::new(7);
+    for (k, (clause, lits)) in items.iter().enumerate() {
+        let f = lits_fun(lits, *clause);
+        let cnf = lits_cnf(lits, *clause);
+        if cnf.num_vars() != nv {
+            continue;
+        }
+        let r = d.compile_cnf_topdown(&cnf);
+        let want = fun_sum(&f, &w);
+        let got = r.cached_semantic_hash(&order, &map).value();
+        if got != want {
+            fails.push(format!("soak-explicit item {k}: compile_cnf_topdown of {} returns a diagram with cached semantic hash {got}, the defining sum is {want}", f.text()));
+        }
+        for j in 0..4 {
+            let mut t = rng.next() as u32 & ((1u32 << nv) - 1);
+            if j == 0 && f.n > 0 {
+                t = (t & !f.c[0].m) | f.c[0].v;
+            }
+            if eval_ptr(r, t as usize) != f.eval(t) {
+                fails.push(format!("soak-explicit item {k}: compile_cnf_topdown of {} is wrong on the assignment {t:#b}", f.text()));
+                break;
+            }
+        }
+        st.bump("soak_explicit_topdown_items");
+    }
+    st.add("soak_explicit_items", items.len() as u64);
+    fails
+}
+
+/// the soak cases of a shard of n cases: two short ones in the middle, three long ones at the end
+/// (quick tier, measured on the development machine: S non-linear 80k operations = about 140k stored
+/// nodes in 1-1.5 s; D 400k operations = about 390k stored nodes in 2.5 s; S right-linear 60k
+/// operations = about 260k stored nodes in 0.8 s)
+fn gen_soak(rng: &mut Rng, idx: usize, n: usize, thorough: bool) -> Option<String> {
+    if n < 100 || !(idx == n / 2 || idx == n / 2 + 1 || idx + 3 >= n) {
+        return None;
+    }
+    let scale = if thorough { 4 } else { 1 };
+    let nv = rng.range(14, 18);
+    let seed = rng.next() & 0xFFFF_FFFF_FFFF;
+    let labels: Vec<u64> = rng.perm(nv).into_iter().map(|x| x as u64).collect();
+    let lv: Vec<VarLabel> = labels.iter().map(|l| VarLabel::new(*l)).collect();
+    let nonlinear = |rng: &mut Rng| -> String {
+        match rng.below(3) {
+            0 => vt_text(&vt_of_rsdd(&VTree::even_split(&lv, 2))),
+            1 => vt_text(&vt_of_rsdd(&VTree::even_split(&lv, 4))),
+            _ => vt_text(&vt_random(rng, &labels)),
+        }
+    };
+    let perm = |rng: &mut Rng| -> String { rng.perm(nv).iter().map(|p| p.to_string()).collect::<Vec<_>>().join(" ") };
+    if idx == n / 2 {
+        return Some(format!("SOAK S {seed} {nv} {} 2 2 VT {}", 20_000 * scale, nonlinear(rng)));
+    }
+    if idx == n / 2 + 1 {
+        return Some(format!("SOAK D {seed} {nv} {} {}", 50_000 * scale, perm(rng)));
+    }
+    if idx + 3 == n {
+        return Some(format!("SOAK S {seed} {nv} {} 2 2 VT {}", 80_000 * scale, nonlinear(rng)));
+    }
+    if idx + 2 == n {
+        return Some(format!("SOAK D {seed} {nv} {} {}", 400_000 * scale, perm(rng)));
+    }
+    if idx + 1 == n {
+        return Some(format!("SOAK S {seed} {nv} {} 4 45 VT {}", 60_000 * scale, vt_text(&vt_of_rsdd(&VTree::right_linear(&lv)))));
+    }
+    None
+}
+
+fn vt_of_rsdd(t: &VTree) -> VT {
+    match t {
+        VTree::Leaf(v) => VT::L(v.value()),
+        VTree::Node((), l, r) => VT::N(Box::new(vt_of_rsdd(l)), Box::new(vt_of_rsdd(r))),
+    }
+}
+
+fn run_soak(case: &str, st: &mut Stats) -> Outcome {
+    let t: Vec<String> = toks(case).iter().map(|s| s.to_string()).collect();
+    let u = |s: &String| -> usize { s.parse().unwrap() };
+    let fails = match t[1].as_str() {
+        "S" => {
+            let (seed, nv, nops) = (t[2].parse::<u64>().unwrap(), u(&t[3]), u(&t[4]));
+            let (maxc, binpct) = (u(&t[5]), u(&t[6]) as u64);
+            assert!(t[7] == "VT" && nv <= 24 && (1..=4).contains(&maxc));
+            let mut i = 8;
+            let vt = vt_parse(&t, &mut i);
+            st.bump("kind_soak_semantic_sdd_builder");
+            soak_sdd(seed, nv, nops, maxc, binpct, &vt, st)
+        }
+        "D" => {
+            let (seed, nv, nops) = (t[2].parse::<u64>().unwrap(), u(&t[3]), u(&t[4]));
+            assert!(nv <= 24);
+            let var_to_pos: Vec<usize> = (0..nv).map(|k| u(&t[5 + k])).collect();
+            st.bump("kind_soak_semantic_decision_dnnf_builder");
+            soak_dnnf(seed, nv, nops, &var_to_pos, st)
+        }
+        "X" => {
+            let nv = u(&t[2]);
+            assert!(t[3] == "VT" && nv <= 24);
+            let mut i = 4;
+            let vt = vt_parse(&t, &mut i);
+            let mut items = vec![];
+            while i < t.len() {
+                let clause = t[i] == "K";
+                let k = u(&t[i + 1]);
+                let lits: Vec<(usize, bool)> = (0..k).map(|j| { let d: i64 = t[i + 2 + j].parse().unwrap(); ((d.unsigned_abs() - 1) as usize, d > 0) }).collect();
+                items.push((clause, lits));
+                i += 2 + k;
+            }
+            st.bump("kind_soak_explicit");
+            soak_explicit(nv, &vt, &items, st)
+        }
+        _ => panic!("bad soak case"),
+    };
+    Outcome { result: SOAK_LINE.to_string(), fails, nontrivial: true }
 }
